@@ -167,6 +167,9 @@ pub fn quiet_panics() {
         } else {
             "panic".to_string()
         };
+        if std::env::var_os("VERIF_LOUD_PANICS").is_some() {
+            eprintln!("panic: {} at {}", msg, loc);
+        }
         LAST_PANIC.with(|p| *p.borrow_mut() = format!("{} at {}", msg, loc));
     }));
 }
@@ -245,6 +248,41 @@ pub fn load_known(verif_dir: &str) -> KnownFindings {
 
 /// Drive a property over `cases` generated choice strings on all threads.
 /// `known`: signatures (substrings) of open findings to be excluded.
+/// Property id of the running check (set by main); names the provisional failure files.
+pub static CURRENT_PROPERTY: Mutex<String> = Mutex::new(String::new());
+
+/// The first failing case of a worker is written out at once, before shrinking: when a changed library
+/// then hangs in the shrink phase the watchdog of ./check replays these files, so a violation that was
+/// already seen is still reported (a hang alone stays inconclusive).
+fn save_provisional(ctx: &Ctx, stream: u64, worker: u64, sig: &str, data: &[u8]) {
+    let id = CURRENT_PROPERTY.lock().map(|g| g.clone()).unwrap_or_default();
+    if id.is_empty() || sig.starts_with("HARNESS:") {
+        return;
+    }
+    let dir = format!("{}/work/provisional", ctx.verif_dir);
+    let _ = std::fs::create_dir_all(&dir);
+    let body = json!({
+        "property": id,
+        "kind": "choices",
+        "data": crate::model::hex(data),
+        "signature": sig,
+        "detail": "unshrunk first failure of a worker (written before shrinking)",
+        "seed": ctx.seed,
+        "tier": ctx.tier.name(),
+    });
+    let _ = std::fs::write(format!("{}/{}-{}-{}.case", dir, id, stream, worker), serde_json::to_string(&body).unwrap());
+}
+
+pub fn clear_provisional(ctx: &Ctx, id: &str) {
+    if let Ok(rd) = std::fs::read_dir(format!("{}/work/provisional", ctx.verif_dir)) {
+        for e in rd.flatten() {
+            if e.file_name().to_string_lossy().starts_with(&format!("{}-", id)) {
+                let _ = std::fs::remove_file(e.path());
+            }
+        }
+    }
+}
+
 pub fn drive<P: Prop>(p: &P, cases: u64, ctx: &Ctx, stream: u64, known: &[String]) -> (Stats, Vec<Found>, BTreeMap<String, u64>) {
     let threads = ctx.threads.max(1) as u64;
     let per = (cases + threads - 1) / threads;
@@ -296,10 +334,16 @@ pub fn drive<P: Prop>(p: &P, cases: u64, ctx: &Ctx, stream: u64, known: &[String
                                 }
                                 return Ok(());
                             }
+                            if !st.frozen {
+                                save_provisional(ctx, stream, w, &f.sig, &data);
+                            }
                             st.frozen = true;
                             Err(TestCaseError::fail(f.sig))
                         }
                         Err(pm) => {
+                            if !st.frozen {
+                                save_provisional(ctx, stream, w, &format!("harness-panic: {}", panic_sig(&pm)), &data);
+                            }
                             st.frozen = true;
                             Err(TestCaseError::fail(format!("harness-panic: {}", panic_sig(&pm))))
                         }
